@@ -334,6 +334,9 @@ def check(ctx):
     ctx.rule("R14", "the target temperature sent is the one asked for, to the tenth: for every 16-bit word, both units and both writers, writing the value the item presents for that word hands the same word to the device write - decided on the writers' own float programs (same operations, order and constants), so an algebraically equal rewrite that truncates differently (`int((t - 32.0) * 10.0)` gives 485 for 80.6 F) is seen (C14.R6 borrowed)")
     from .c14 import exact_read_back as _erb13
     _erb13(ctx.borrowed("R14", "C14"), repo, "R6")
+    ctx.rule("R15", "every water-care mode can be sent: the water-care command, built on symbolic sequence and mode bytes and decoded by the peer, carries BOTH bytes for every value - mode 0 (Away From Home) included: a builder that filters out falsy fields sends `SETWC<seq>` without its mode byte for mode 0, the spa cannot apply it, and the facade claims mode 0 until the next poll reads the old mode back (C04.R2's round trips of the water-care messages borrowed)")
+    from .c04 import round_trips as _rt13
+    _rt13(ctx.borrowed("R15", "C04", only=("R2",), key_contains="Watercare"), repo)
     ctx.rule("R10", "read-back after the echo: what the facade's sensors present is what the items decode from the block as it is now, also after a unit change that leaves the temperature word untouched (C14.R9 borrowed)")
     from .c14 import presented_value_follows_the_block
     presented_value_follows_the_block(ctx.borrowed("R10", "C14"), repo, "R9")
